@@ -12,5 +12,49 @@ PROPS = {
     },
 }
 
+_LN = ("Inputs range over exact rational menus (dimensions and batch sizes as listed in the instance cfg); code conformance is "
+       "established on the explored behaviours only; trusted: TLC, CRT decoding, float64 rounding below tolerance on cond<1e2 inputs.")
+
+PROPS["C05"] = {
+    "quick": [{"module": "MC_PDF", "cfg": "MC_C05_quick.cfg", "nprimes": 6}],
+    "level_text": "TLC enumerates every ordered coordinate subset and every linear-map configuration and proves, on the unisolvent lattice, that marginal x conditional = joint (marginal = integral over the dropped coordinates) and the change-of-variables identity for linear images; every behaviour is replayed into the code.",
+    "level_note": _LN,
+    "explanation": "all ordered subsets of coordinates for D<=3; linear sums with Dsum<=D, b given/omitted",
+}
+PROPS["C06"] = {
+    "quick": [{"module": "MC_PDF", "cfg": "MC_C06_quick.cfg", "nprimes": 6}],
+    "level_text": "TLC enumerates every proper ordered subset (condition_on) and every ordered partition (condition_on_explicit) and proves p(x_a|x_b)p(x_b)=p(x) for all points via the lattice; replayed into the code including condition_on_x of the returned conditional.",
+    "level_note": _LN,
+    "explanation": "all proper ordered subsets / ordered partitions for D in {2,3}, R<=3",
+}
+
+def _cond(pid, cfgs, text, expl):
+    PROPS[pid] = {"quick": [{"module": m, "cfg": c, "nprimes": 6} for m, c in cfgs],
+                  "level_text": text, "level_note": _LN, "explanation": expl}
+
+_cond("C07", [("MC_COND", "MC_C07_quick.cfg")],
+      "TLC enumerates conditional class x constructor mode x (Dy,Dx) in both log-determinant regimes x batch pattern and proves joint(x,y) = p(y|x)p(x) for all points via the lattice, plus coherence of the information-form precision and both log-determinant branches; replayed into the code, with the documented refusal for batches on both sides.",
+      "4 conditional classes x 3 modes x b given/omitted x Dims {1,2}^2 x (R_c,R_x) in {(1,1),(1,2),(2,1),(3,1),(2,2)}")
+_cond("C08", [("MC_COND", "MC_C08_quick.cfg")],
+      "TLC proves marginal transformation = y-marginal of the joint and Bayes' identity p(x|y)p(y)=p(y|x)p(x) on the lattice for every configuration; replayed into the code.",
+      "as C07")
+_cond("C09", [("MC_COND", "MC_C09_quick.cfg")],
+      "TLC proves Bayes' identity for the conditional transformation and both round trips component-wise; replayed into the code including condition_on_x of the posterior conditional.",
+      "as C07")
+_cond("C10", [("MC_COND", "MC_C10_quick.cfg")],
+      "TLC proves set_y(y)(x) = N(y; Mx+b, Sigma) incl. normaliser on the lattice for every class, Dx != Dy included, R=1 with N observations and R=N; replayed into the code and followed through evaluate, product, multiply and log_integral.",
+      "Dims incl. (3,1),(1,3); N in 1..3")
+_cond("C13", [("MC_PDF", "MC_C13a_quick.cfg"), ("MC_PDF", "MC_C13c_quick.cfg"), ("MC_COND", "MC_C13b_quick.cfg")],
+      "TLC proves the closed forms equal their definitions through exact moments (entropy = -E[ln p], KL = E_p[ln p - ln q], H(Y|X) = H(X,Y)-H(X) = -E[ln p(y|x)], MI = H(X)+H(Y)-H(X,Y), swap symmetry, MI = 0 for M = 0, KL = 0 for equal densities); replayed into the code; sign clauses checked on the code's values.",
+      "D<=3, R<=3 incl. 1-vs-n KL; all conditional classes; M = 0 included")
+
+_cond("C03", [("MC_C03", "MC_C03_quick.cfg")],
+      "TLC enumerates the 11 polynomial keys x coefficient modes (omitted / shared / per-component, matrix and vector independently) x output dimensions K != L != M x measures with mass != 1 and densities; expected values are mass x Isserlis moment from the semantic layer (no transcription of the einsum formulas); table-internal rearrangement identities are checked by TLC; every behaviour is replayed, exact mode compared bit-exactly.",
+      "D in {2,3}, (K,L,M) permutations of (1,2,3), R in {1,2}, at most one form deviating from shared/shared per behaviour (quick)")
+
+_cond("C14", [("MC_C03", "MC_C14_quick.cfg"), ("MC_COND", "MC_C14a_quick.cfg"), ("MC_COND", "MC_C14b_quick.cfg")],
+      "Expected log-factor and expected log-conditional integrals are defined in the specification through exact Isserlis moments (E[x' Lam x], E[x]) for arbitrary Gaussian q, enumerated over every factor kind / conditional class / batch pattern, and replayed into the code (callable and y-given variants).",
+      "linear part: all factor kinds with R_f in {1, R_u}; conditional classes Cond, CondDiag, CondId, CondIdDiag; q an arbitrary Gaussian over (y,x)")
+
 NOT_APPLICABLE = {}
 HOOK_COMMITS = []
